@@ -74,6 +74,20 @@ Example ex_malformed :
                       {| st_arr := 2; st_dep := 2; st_cb := false; st_cu := true |} ] |} ].
 Proof. vm_compute. reflexivity. Qed.
 
+(* D13: stop times that go backwards.  Trip 2: arrives at the second stop (5) before it left the first (10); trip 3:
+   leaves the second stop (15) before it reached it (20); trip 4: leaves the first stop at -1.  All three are skipped and
+   the file is read on.  Trip 5: the arrival at the first stop and the departure from the last one are not looked at. *)
+Example ex_backwards_skipped :
+  map t_id (load_line_file ex_paths [7%nat]
+    (FDecoded [ {| sm_service := Some 7%nat;
+                   sm_trips := [ ex_tm (Some 1%nat) (Some 10%nat) [0;20;40] [10;30;50] [1;1;1] [1;1;1];
+                                 ex_tm (Some 2%nat) (Some 10%nat) [0;5;40] [10;30;50] [1;1;1] [1;1;1];
+                                 ex_tm (Some 3%nat) (Some 10%nat) [0;20;40] [10;15;50] [1;1;1] [1;1;1];
+                                 ex_tm (Some 4%nat) (Some 10%nat) [0;20;40] [-1;30;50] [1;1;1] [1;1;1];
+                                 ex_tm (Some 5%nat) (Some 10%nat) [-1;20;40] [10;30;-1] [1;1;1] [1;1;1] ] |} ]))
+  = [1; 5]%nat.
+Proof. vm_compute. reflexivity. Qed.
+
 (* ---------------------------------------------------------------------------------------------- *)
 (* A. totality and safety for arbitrary messages                                                   *)
 
@@ -95,10 +109,20 @@ Definition trip_safe (paths : list path) (services : list nat) (t : trip) : Prop
   exists p, find (fun p => Nat.eqb (p_id p) (t_path t)) paths = Some p /\
             (2 <= length (t_times t) <= length (p_nodes p))%nat.
 
-Lemma load_trip_safe : forall paths services sv m t,
-  memb sv services = true -> load_trip paths sv m = Some (Some t) -> trip_safe paths services t.
+(* what it takes for the loader to accept a trip message (inversion of load_trip) *)
+Lemma load_trip_accepts : forall paths sv m t, load_trip paths sv m = Some (Some t) ->
+  exists tid pid p,
+    tm_id m = Some tid /\ tm_path m = Some pid /\
+    find (fun p => Nat.eqb (p_id p) pid) paths = Some p /\
+    (2 <= length (tm_arr m) <= length (p_nodes p))%nat /\
+    (length (tm_arr m) <= length (tm_dep m))%nat /\ (length (tm_arr m) <= length (tm_cb m))%nat /\
+    (length (tm_arr m) <= length (tm_cu m))%nat /\
+    trip_times_in_order (tm_arr m) (tm_dep m) (length (tm_arr m)) = true /\
+    t = {| t_id := tid; t_path := pid; t_service := sv;
+           t_times := zip_times (tm_arr m) (firstn (length (tm_arr m)) (tm_dep m))
+                                (firstn (length (tm_arr m)) (tm_cb m)) (firstn (length (tm_arr m)) (tm_cu m)) |}.
 Proof.
-  intros paths services sv m t Hsv Hload.
+  intros paths sv m t Hload.
   unfold load_trip in Hload.
   destruct (tm_id m) as [tid|] eqn:Hid; [|discriminate Hload].
   destruct (tm_path m) as [pid|] eqn:Hpid; [|discriminate Hload].
@@ -108,12 +132,25 @@ Proof.
             || Nat.ltb (length (tm_dep m)) (length (tm_arr m))
             || Nat.ltb (length (tm_cb m)) (length (tm_arr m))
             || Nat.ltb (length (tm_cu m)) (length (tm_arr m))) eqn:Hcond; [discriminate Hload|].
+  destruct (trip_times_in_order (tm_arr m) (tm_dep m) (length (tm_arr m))) eqn:Hord;
+    cbn [negb] in Hload; [|discriminate Hload].
   apply orb_false_elim in Hcond. destruct Hcond as [Hcond Hcu].
   apply orb_false_elim in Hcond. destruct Hcond as [Hcond Hcb].
   apply orb_false_elim in Hcond. destruct Hcond as [Hcond Hdep].
   apply orb_false_elim in Hcond. destruct Hcond as [Hmin Hmax].
   apply Nat.ltb_ge in Hcu, Hcb, Hdep, Hmin, Hmax.
-  injection Hload as Ht. subst t.
+  injection Hload as Ht.
+  exists tid, pid, p.
+  repeat split; try reflexivity; try assumption; try lia. symmetry. exact Ht.
+Qed.
+
+Lemma load_trip_safe : forall paths services sv m t,
+  memb sv services = true -> load_trip paths sv m = Some (Some t) -> trip_safe paths services t.
+Proof.
+  intros paths services sv m t Hsv Hload.
+  destruct (load_trip_accepts paths sv m t Hload)
+    as [tid [pid [p [Hid [Hpid [Hfind [Hn [Hdep [Hcb [Hcu [Hord Ht]]]]]]]]]]].
+  subst t.
   unfold trip_safe. cbn [t_service t_path t_times].
   split; [exact Hsv|].
   exists p. split; [exact Hfind|].
@@ -182,6 +219,254 @@ Proof.
   unfold load_schedules in Hin.
   apply in_flat_map in Hin. destruct Hin as [l [_ Hin]].
   pose proof (load_line_file_safe paths services (files (l_id l))) as Hall.
+  rewrite Forall_forall in Hall.
+  exact (Hall t Hin).
+Qed.
+
+(* ---- stop times in order (D13) ---------------------------------------------------------------------- *)
+
+(* what one round of the check loop demands of index i *)
+Definition time_step_good (arr dep : list Z) (i : nat) : Prop :=
+  0 <= nth i dep 0 /\ nth i dep 0 <= nth (S i) arr 0 /\ (i <> 0%nat -> nth i arr 0 <= nth i dep 0).
+
+Lemma time_step_bad_false : forall arr dep i, time_step_bad arr dep i = false <-> time_step_good arr dep i.
+Proof.
+  intros arr dep i. unfold time_step_bad, time_step_good. split.
+  - intros Hbad.
+    apply orb_false_elim in Hbad. destruct Hbad as [Hbad H3].
+    apply orb_false_elim in Hbad. destruct Hbad as [H1 H2].
+    apply Z.ltb_ge in H1, H2.
+    split; [exact H1|]. split; [exact H2|].
+    intros Hi. apply Nat.eqb_neq in Hi. rewrite Hi in H3. cbn [negb andb] in H3.
+    apply Z.ltb_ge in H3. exact H3.
+  - intros [H1 [H2 H3]].
+    apply orb_false_intro; [apply orb_false_intro|].
+    + apply Z.ltb_ge. exact H1.
+    + apply Z.ltb_ge. exact H2.
+    + destruct (Nat.eqb i 0) eqn:Hi; [reflexivity|].
+      cbn [negb andb]. apply Z.ltb_ge. apply H3. apply Nat.eqb_neq. exact Hi.
+Qed.
+
+Lemma trip_times_in_order_iff : forall arr dep n,
+  trip_times_in_order arr dep n = true <-> (forall i, (i + 1 < n)%nat -> time_step_good arr dep i).
+Proof.
+  intros arr dep n. unfold trip_times_in_order. rewrite forallb_forall. split.
+  - intros Hall i Hi.
+    apply time_step_bad_false. apply negb_true_iff. apply Hall. apply in_seq. lia.
+  - intros Hall i Hi. apply in_seq in Hi.
+    apply negb_true_iff. apply time_step_bad_false. apply Hall. lia.
+Qed.
+
+(* the same three inequalities on a list of stop times: for consecutive stop times s0, s1 the connection leaves at a
+   clock time (0 <= dep s0) and does not arrive before it leaves (dep s0 <= arr s1); at every stop but the first the
+   vehicle does not leave before it arrived (arr s0 <= dep s0; `first` = s0 is the first stop of the trip) *)
+Fixpoint conn_times_from (first : bool) (l : list stoptime) : bool :=
+  match l with
+  | [] => true
+  | s0 :: r =>
+      match r with
+      | [] => true
+      | s1 :: _ => (0 <=? st_dep s0) && (st_dep s0 <=? st_arr s1) && (first || (st_arr s0 <=? st_dep s0))
+                   && conn_times_from false r
+      end
+  end.
+Definition conn_times_ok (l : list stoptime) : bool := conn_times_from true l.
+
+Lemma conn_times_from_step : forall first s0 s1 r,
+  conn_times_from first (s0 :: s1 :: r) = true <->
+  (0 <= st_dep s0 /\ st_dep s0 <= st_arr s1 /\ (first = false -> st_arr s0 <= st_dep s0)) /\
+  conn_times_from false (s1 :: r) = true.
+Proof.
+  intros first s0 s1 r.
+  change (conn_times_from first (s0 :: s1 :: r))
+    with ((0 <=? st_dep s0) && (st_dep s0 <=? st_arr s1) && (first || (st_arr s0 <=? st_dep s0))
+          && conn_times_from false (s1 :: r)).
+  rewrite !andb_true_iff, !Z.leb_le. split.
+  - intros [[[H1 H2] H3] H4]. split; [|exact H4]. split; [exact H1|]. split; [exact H2|].
+    intros Hf. subst first. cbn [orb] in H3. apply Z.leb_le. exact H3.
+  - intros [[H1 [H2 H3]] H4]. split; [|exact H4]. split; [split; [exact H1|exact H2]|].
+    destruct first; [reflexivity|]. cbn [orb]. apply Z.leb_le. apply H3. reflexivity.
+Qed.
+
+Lemma conn_times_from_iff : forall l first,
+  conn_times_from first l = true <->
+  (forall i, (i + 1 < length l)%nat ->
+     0 <= nth i (map st_dep l) 0 /\ nth i (map st_dep l) 0 <= nth (S i) (map st_arr l) 0 /\
+     ((first = false \/ i <> 0%nat) -> nth i (map st_arr l) 0 <= nth i (map st_dep l) 0)).
+Proof.
+  induction l as [|s0 r IHl]; intros first.
+  - split; [intros _ i Hi; cbn [length] in Hi; lia|intros _; reflexivity].
+  - destruct r as [|s1 r'].
+    + split; [intros _ i Hi; cbn [length] in Hi; lia|intros _; reflexivity].
+    + rewrite conn_times_from_step. rewrite (IHl false). split.
+      * intros [[H1 [H2 H3]] Hrest] i Hi. destruct i as [|j].
+        -- cbn [map nth]. split; [exact H1|]. split; [exact H2|].
+           intros [Hf|Hne]; [apply H3; exact Hf|exfalso; apply Hne; reflexivity].
+        -- cbn [length] in Hi.
+           assert (Hj : (j + 1 < length (s1 :: r'))%nat) by (cbn [length]; lia).
+           destruct (Hrest j Hj) as [G1 [G2 G3]].
+           change (nth (S j) (map st_dep (s0 :: s1 :: r')) 0) with (nth j (map st_dep (s1 :: r')) 0).
+           change (nth (S (S j)) (map st_arr (s0 :: s1 :: r')) 0) with (nth (S j) (map st_arr (s1 :: r')) 0).
+           change (nth (S j) (map st_arr (s0 :: s1 :: r')) 0) with (nth j (map st_arr (s1 :: r')) 0).
+           split; [exact G1|]. split; [exact G2|]. intros _. apply G3. left. reflexivity.
+      * intros Hall. split.
+        -- assert (H0 : (0 + 1 < length (s0 :: s1 :: r'))%nat) by (cbn [length]; lia).
+           destruct (Hall 0%nat H0) as [G1 [G2 G3]]. cbn [map nth] in G1, G2, G3.
+           split; [exact G1|]. split; [exact G2|]. intros Hf. apply G3. left. exact Hf.
+        -- intros j Hj.
+           assert (Hsj : (S j + 1 < length (s0 :: s1 :: r'))%nat) by (cbn [length] in *; lia).
+           destruct (Hall (S j) Hsj) as [G1 [G2 G3]].
+           change (nth (S j) (map st_dep (s0 :: s1 :: r')) 0) with (nth j (map st_dep (s1 :: r')) 0) in G1, G2, G3.
+           change (nth (S (S j)) (map st_arr (s0 :: s1 :: r')) 0) with (nth (S j) (map st_arr (s1 :: r')) 0) in G2.
+           change (nth (S j) (map st_arr (s0 :: s1 :: r')) 0) with (nth j (map st_arr (s1 :: r')) 0) in G3.
+           split; [exact G1|]. split; [exact G2|]. intros _. apply G3. right. discriminate.
+Qed.
+
+(* the loader's check on the message arrays of a stop-time list IS conn_times_ok of that list *)
+Lemma trip_times_in_order_conn_times : forall l,
+  trip_times_in_order (map st_arr l) (map st_dep l) (length l) = conn_times_ok l.
+Proof.
+  intros l. apply eq_true_iff_eq.
+  rewrite trip_times_in_order_iff. unfold conn_times_ok. rewrite conn_times_from_iff.
+  unfold time_step_good. split.
+  - intros Hall i Hi. destruct (Hall i Hi) as [G1 [G2 G3]].
+    split; [exact G1|]. split; [exact G2|].
+    intros [Hf|Hne]; [discriminate Hf|apply G3; exact Hne].
+  - intros Hall i Hi. destruct (Hall i Hi) as [G1 [G2 G3]].
+    split; [exact G1|]. split; [exact G2|].
+    intros Hne. apply G3. right. exact Hne.
+Qed.
+
+(* the stop times of a well-formed dataset pass *)
+Lemma times_ok_conn_times_from : forall l first, times_ok l = true -> conn_times_from first l = true.
+Proof.
+  induction l as [|s0 r IHl]; intros first Hok; [reflexivity|].
+  destruct r as [|s1 r']; [reflexivity|].
+  change (times_ok (s0 :: s1 :: r'))
+    with ((0 <=? st_arr s0) && (st_arr s0 <=? st_dep s0) && (st_dep s0 <? CLOCK_MAX) &&
+          (st_dep s0 <=? st_arr s1) && times_ok (s1 :: r')) in Hok.
+  apply andb_true_iff in Hok. destruct Hok as [Hok Hrest].
+  apply andb_true_iff in Hok. destruct Hok as [Hok Hnext].
+  apply andb_true_iff in Hok. destruct Hok as [Hok _].
+  apply andb_true_iff in Hok. destruct Hok as [Harr Hdep].
+  apply Z.leb_le in Hnext, Harr, Hdep.
+  apply conn_times_from_step. split.
+  - split; [lia|]. split; [exact Hnext|]. intros _. exact Hdep.
+  - apply IHl. exact Hrest.
+Qed.
+
+Lemma times_ok_conn_times_ok : forall l, times_ok l = true -> conn_times_ok l = true.
+Proof. intros l Hok. apply times_ok_conn_times_from. exact Hok. Qed.
+
+Theorem times_ok_in_order : forall l,
+  times_ok l = true -> trip_times_in_order (map st_arr l) (map st_dep l) (length l) = true.
+Proof.
+  intros l Hok. rewrite trip_times_in_order_conn_times. apply times_ok_conn_times_ok. exact Hok.
+Qed.
+
+(* the stop times the loader builds from the message arrays *)
+Lemma zip_times_maps : forall arr dep cb cu,
+  (length arr <= length dep)%nat -> (length arr <= length cb)%nat -> (length arr <= length cu)%nat ->
+  map st_arr (zip_times arr dep cb cu) = arr /\ map st_dep (zip_times arr dep cb cu) = firstn (length arr) dep.
+Proof.
+  induction arr as [|a ar IHarr]; intros dep cb cu Hd Hb Hu.
+  - split; reflexivity.
+  - destruct dep as [|d dr]; [cbn [length] in Hd; lia|].
+    destruct cb as [|b br]; [cbn [length] in Hb; lia|].
+    destruct cu as [|u ur]; [cbn [length] in Hu; lia|].
+    cbn [length] in Hd, Hb, Hu.
+    destruct (IHarr dr br ur) as [IH1 IH2]; [lia|lia|lia|].
+    cbn [zip_times map length firstn st_arr st_dep]. rewrite IH1, IH2. split; reflexivity.
+Qed.
+
+Lemma nth_firstn_lt : forall (l : list Z) n i, (i < n)%nat -> nth i (firstn n l) 0 = nth i l 0.
+Proof.
+  induction l as [|x l IHl]; intros n i Hi.
+  - rewrite firstn_nil. reflexivity.
+  - destruct n as [|n]; [lia|]. destruct i as [|i]; [reflexivity|].
+    cbn [firstn nth]. apply IHl. lia.
+Qed.
+
+Lemma trip_times_in_order_firstn : forall arr dep n,
+  trip_times_in_order arr (firstn n dep) n = trip_times_in_order arr dep n.
+Proof.
+  intros arr dep n. apply eq_true_iff_eq. rewrite !trip_times_in_order_iff.
+  unfold time_step_good. split.
+  - intros Hall i Hi. specialize (Hall i Hi). rewrite nth_firstn_lt in Hall by lia. exact Hall.
+  - intros Hall i Hi. specialize (Hall i Hi). rewrite nth_firstn_lt by lia. exact Hall.
+Qed.
+
+(* D13: the stop times of every trip the loader accepts are in order, whatever the message held *)
+Theorem load_trip_times_in_order : forall paths sv m t,
+  load_trip paths sv m = Some (Some t) -> conn_times_ok (t_times t) = true.
+Proof.
+  intros paths sv m t Hload.
+  destruct (load_trip_accepts paths sv m t Hload)
+    as [tid [pid [p [Hid [Hpid [Hfind [Hn [Hdep [Hcb [Hcu [Hord Ht]]]]]]]]]]].
+  subst t. cbn [t_times].
+  set (n := length (tm_arr m)) in *.
+  assert (Hd' : (length (tm_arr m) <= length (firstn n (tm_dep m)))%nat) by (rewrite firstn_length; lia).
+  assert (Hb' : (length (tm_arr m) <= length (firstn n (tm_cb m)))%nat) by (rewrite firstn_length; lia).
+  assert (Hu' : (length (tm_arr m) <= length (firstn n (tm_cu m)))%nat) by (rewrite firstn_length; lia).
+  rewrite <- trip_times_in_order_conn_times.
+  destruct (zip_times_maps _ _ _ _ Hd' Hb' Hu') as [Marr Mdep].
+  rewrite Marr, Mdep, zip_times_length by assumption.
+  fold n. rewrite trip_times_in_order_firstn. rewrite trip_times_in_order_firstn. exact Hord.
+Qed.
+
+Lemma load_trips_times : forall paths sv l acc,
+  Forall (fun t => conn_times_ok (t_times t) = true) acc ->
+  Forall (fun t => conn_times_ok (t_times t) = true) (fst (load_trips paths sv l acc)).
+Proof.
+  intros paths sv l.
+  induction l as [|m r IHl]; intros acc Hacc.
+  - cbn [load_trips fst]. exact Hacc.
+  - cbn [load_trips].
+    destruct (load_trip paths sv m) as [[t|]|] eqn:Hload.
+    + apply IHl. apply Forall_app. split; [exact Hacc|].
+      constructor; [|constructor].
+      exact (load_trip_times_in_order paths sv m t Hload).
+    + apply IHl. exact Hacc.
+    + cbn [fst]. exact Hacc.
+Qed.
+
+Lemma load_scheds_times : forall paths services l acc,
+  Forall (fun t => conn_times_ok (t_times t) = true) acc ->
+  Forall (fun t => conn_times_ok (t_times t) = true) (fst (load_scheds paths services l acc)).
+Proof.
+  intros paths services l.
+  induction l as [|s r IHl]; intros acc Hacc.
+  - cbn [load_scheds fst]. exact Hacc.
+  - cbn [load_scheds].
+    destruct (sm_service s) as [sv|] eqn:Hsvc; [|cbn [fst]; exact Hacc].
+    destruct (memb sv services) eqn:Hmem; [|apply IHl; exact Hacc].
+    pose proof (load_trips_times paths sv (sm_trips s) acc Hacc) as Htrips.
+    destruct (load_trips paths sv (sm_trips s) acc) as [acc1 ok] eqn:Hlt.
+    cbn [fst] in Htrips.
+    destruct ok.
+    + apply IHl. exact Htrips.
+    + cbn [fst]. exact Htrips.
+Qed.
+
+Lemma load_line_file_times : forall paths services f,
+  Forall (fun t => conn_times_ok (t_times t) = true) (load_line_file paths services f).
+Proof.
+  intros paths services f. unfold load_line_file.
+  destruct f as [| |pre|msg].
+  - constructor.
+  - constructor.
+  - apply load_scheds_times. constructor.
+  - apply load_scheds_times. constructor.
+Qed.
+
+(* every trip the schedule loader produces, from ANY files, has stop times in order *)
+Theorem load_schedules_times_in_order : forall lines paths services files t,
+  In t (load_schedules lines paths services files) -> conn_times_ok (t_times t) = true.
+Proof.
+  intros lines paths services files t Hin.
+  unfold load_schedules in Hin.
+  apply in_flat_map in Hin. destruct Hin as [l [_ Hin]].
+  pose proof (load_line_file_times paths services (files (l_id l))) as Hall.
   rewrite Forall_forall in Hall.
   exact (Hall t Hin).
 Qed.
@@ -609,31 +894,34 @@ Qed.
 Lemma load_trip_encode : forall paths sv t p,
   find (fun x => Nat.eqb (p_id x) (t_path t)) paths = Some p ->
   length (p_nodes p) = length (t_times t) -> (2 <= length (t_times t))%nat ->
+  times_ok (t_times t) = true ->
   load_trip paths sv (encode_trip t)
   = Some (Some {| t_id := t_id t; t_path := t_path t; t_service := sv; t_times := t_times t |}).
 Proof.
-  intros paths sv t p Hfind Hlen Hmin.
+  intros paths sv t p Hfind Hlen Hmin Htimes.
   unfold load_trip, encode_trip. cbn [tm_id tm_path tm_arr tm_dep tm_cb tm_cu].
   rewrite Hfind. cbv zeta. rewrite !map_length.
   assert (H1 : Nat.ltb (length (t_times t)) 2 = false) by (apply Nat.ltb_ge; lia).
   assert (H2 : Nat.ltb (length (p_nodes p)) (length (t_times t)) = false) by (apply Nat.ltb_ge; lia).
   assert (H3 : Nat.ltb (length (t_times t)) (length (t_times t)) = false) by (apply Nat.ltb_irrefl).
   rewrite H1, H2, H3. cbn [orb].
+  rewrite (times_ok_in_order (t_times t) Htimes). cbn [negb].
   rewrite !firstn_all2 by (rewrite map_length; lia).
   rewrite zip_times_encode. reflexivity.
 Qed.
 
 Lemma wf_trip_path : forall d t, wf_data_b d = true -> In t (d_trips d) ->
-  exists p, find_path d (t_path t) = Some p /\ length (p_nodes p) = length (t_times t) /\ (2 <= length (t_times t))%nat.
+  exists p, find_path d (t_path t) = Some p /\ length (p_nodes p) = length (t_times t) /\ (2 <= length (t_times t))%nat /\
+            times_ok (t_times t) = true.
 Proof.
   intros d t Hwf Hin. unfold wf_data_b in Hwf.
   apply andb_true_iff in Hwf. destruct Hwf as [_ Htrips].
   rewrite forallb_forall in Htrips. specialize (Htrips t Hin).
-  apply andb_true_iff in Htrips. destruct Htrips as [Hpath _].
+  apply andb_true_iff in Htrips. destruct Htrips as [Hpath Htimes].
   destruct (find_path d (t_path t)) as [p|] eqn:Hfind; [|discriminate Hpath].
   apply andb_true_iff in Hpath. destruct Hpath as [Hlen Hmin].
   apply Nat.eqb_eq in Hlen. apply Nat.leb_le in Hmin.
-  exists p. split; [reflexivity|]. split; assumption.
+  exists p. split; [reflexivity|]. split; [exact Hlen|]. split; assumption.
 Qed.
 
 Lemma load_scheds_encode : forall d ts acc, wf_data_b d = true ->
@@ -645,12 +933,12 @@ Proof.
   intros d. induction ts as [|t ts IHts]; intros acc Hwf Hsub.
   - cbn [map load_scheds]. rewrite app_nil_r. reflexivity.
   - assert (Hin : In t (d_trips d)) by (apply Hsub; left; reflexivity).
-    destruct (wf_trip_path d t Hwf Hin) as [p [Hfind [Hlen Hmin]]].
+    destruct (wf_trip_path d t Hwf Hin) as [p [Hfind [Hlen [Hmin Htimes]]]].
     unfold find_path in Hfind.
     cbn [map load_scheds sm_service sm_trips].
     rewrite (memb_in (t_service t) (map t_service (d_trips d))) by (apply in_map; exact Hin).
     cbn [load_trips].
-    rewrite (load_trip_encode (d_paths d) (t_service t) t p Hfind Hlen Hmin).
+    rewrite (load_trip_encode (d_paths d) (t_service t) t p Hfind Hlen Hmin Htimes).
     replace {| t_id := t_id t; t_path := t_path t; t_service := t_service t; t_times := t_times t |} with t
       by (destruct t; reflexivity).
     rewrite IHts; [|exact Hwf|intros t' Hin'; apply Hsub; right; exact Hin'].
@@ -681,6 +969,9 @@ Proof.
 Qed.
 
 Print Assumptions load_schedules_safe.
+Print Assumptions times_ok_in_order.
+Print Assumptions load_trip_times_in_order.
+Print Assumptions load_schedules_times_in_order.
 Print Assumptions loaded_trip_conns_count.
 Print Assumptions mk_conns_stops_in.
 Print Assumptions loaded_trip_conns_safe.
